@@ -545,7 +545,11 @@ def recomputed(cfg, cap):
             if isinstance(J, Raised):
                 break
             dg = np.abs(np.asarray(J.diagonal()[:nf], dtype=float))
-            if nf and float(dg.min()) > 0 and float(dg.max() / dg.min()) > 1e10:
+            mf = np.abs(np.asarray(w.mass_matrix_faces.diagonal(), dtype=float)) if nf else np.ones(0)
+            umax = float(np.abs(x[:nf]).max()) if nf else 0.0
+            # a weight w_e = (cell weight)^2 / |cell flux| that is 1e10 times larger than 1 / max|u|: some reconstructed cell flux
+            # is below 1e-10 of the flux scale (relative criterion; also when ALL cell-centre fluxes vanish)
+            if nf and float((dg / mf).max()) * max(umax, 1e-300) > 1e10:
                 out["degenerate"] = True  # weights up to 1/regularisation: J x is dominated by rounding, recomputation meaningless
             out["residual"].append(float(np.linalg.norm(rhs - J @ x)))
             if j + 1 < len(fluxes):
@@ -572,8 +576,8 @@ def criteria_met_at(cfg, hist, i, rc=None):
             # ones (a stored value that does not belong to the iterates makes the criteria count as not met)
             h2 = dict(hist)
             for key in ("residual", "flux_increment", "mass_conservation_residual"):
-                if rc and rc.get("degenerate") and key == "residual":
-                    continue  # degenerate mobility: the stored residual is used (see findings: degenerate-mobility)
+                if rc and rc.get("degenerate"):
+                    continue  # degenerate mobility: J x and the captured iterates are dominated by rounding; stored values are used
                 if rc and len(rc.get(key, [])) > i and key in hist and len(hist[key]) > i:
                     mine, theirs = np.array(rc[key][: i + 1]), np.array(hist[key][: i + 1], dtype=float)
                     ok_ = np.all(np.abs(mine[[0, i]] - theirs[[0, i]]) <= 1e-7 * np.maximum(np.abs(mine[[0, i]]), 1e-300) + 1e-13)
@@ -656,13 +660,17 @@ def check_run(ctx, d, cfg, cap, fault, num_iter, label):
     degenerate, sp_term = False, 0.0
     if not isinstance(fw, Raised) and nf and np.all(np.isfinite(fw)) and float(np.min(np.abs(fw))) > 0:
         Wd = np.abs(np.asarray(fw, dtype=float)) * np.abs(np.asarray(w.mass_matrix_faces.diagonal(), dtype=float))
-        degenerate = float(Wd.max() / Wd.min()) > 1e10
+        degenerate = float(np.abs(np.asarray(fw, dtype=float)).max()) * max(float(np.abs(u).max()), 1e-300) > 1e10
         pabs = np.abs(cap["solution"][nf:nf + nc])
         pabs = np.where(np.isfinite(pabs), pabs, 0.0)
         aD = abs(w.div)
         sp_term = float((aD @ ((aD.T @ pabs) / Wd)).max())
-    tol = 1e4 * EPS * max(scale + cap.get("mass_scale", 0.0) + (2 * sp_term if not iterative else 0.0), 1e-300) * max(nf + nc, 1) \
+    # the tolerance does NOT grow with the conditioning: on degenerate-mobility inputs a miss is reported under a signature
+    # that carries the back-end and the measured magnitude class (relative to max|f|), so only misses of the recorded size are
+    # known findings and a gross violation is still a violation
+    tol = 1e4 * EPS * max(scale + cap.get("mass_scale", 0.0), 1e-300) * max(nf + nc, 1) \
         + (1e-8 * float(np.linalg.norm(f)) if iterative else 0.0)
+    ctx.cov["max_sp_term_degenerate"] = max(ctx.cov.get("max_sp_term_degenerate", 0.0), sp_term if degenerate else 0.0)
     if err <= tol:
         ctx.cov["max_balance_err_over_tol"] = max(ctx.cov.get("max_balance_err_over_tol", 0.0), err / tol)
     else:
@@ -673,9 +681,14 @@ def check_run(ctx, d, cfg, cap, fault, num_iter, label):
         # input class in the signature: Anderson on/off and full vs. reduced formulation (see findings/C04.json)
         # input class in the signature: Anderson off / on / on with a numerically rank-deficient least-squares problem (the
         # recorded finding is only the last one), and full vs. reduced formulation
-        aa_cls = "off" if not cfg.aa else ("degenerate-lstsq" if cap.get("aa_degenerate") else "on")
-        # (the Anderson finding takes precedence: a blown-up iterate makes every later weight degenerate as a consequence)
-        deg = f":degenerate-mobility:{cfg.solver}" if ((degenerate or cap.get("degenerate_iterates")) and aa_cls != "degenerate-lstsq") else ""
+        # no mask for Anderson-on runs: the degenerate least-squares blow-up is repaired upstream (column filter); whether the
+        # run stagnated is recorded as a diagnostic only
+        aa_cls = "off" if not cfg.aa else "on"
+        if cap.get("aa_degenerate"):
+            ctx.cov["mass_balance_failures_in_stagnating_anderson_runs"] = ctx.cov.get("mass_balance_failures_in_stagnating_anderson_runs", 0) + 1
+        rel = err / max(float(np.abs(f).max()) if f.size else 0.0, 1e-300)
+        bucket = "non-finite" if not np.isfinite(rel) else ("rel<=1e-1" if rel <= 0.1 else ("rel<=1" if rel <= 1.0 else "rel>1"))
+        deg = f":degenerate-mobility:{cfg.solver}:{bucket}" if (degenerate or cap.get("degenerate_iterates")) else ""
         ctx.fail(f"{sig0}:mass-balance:anderson={aa_cls}:{'full' if cfg.formulation == 'full' else 'reduced'}-formulation{deg}",
                  f"returned flux violates the discrete mass balance: |D u - f|_inf = {err:.3e} > {tol:.3e} ({label})", rp)
     # (2) reported distance is the cost of exactly the returned flux
@@ -715,9 +728,6 @@ def check_run(ctx, d, cfg, cap, fault, num_iter, label):
             ctx.fail(f"C04:{cfg.method}.__call__:pressure-unavailable(nan):singular-postprocessing:{cfg.mobility}",
                      f"the pressure returned by Bregman is NaN: the post-processing pressure solve failed on a returned flux with a vanishing "
                      f"face flux ({label})", rp)
-        elif cfg.method != "newton" and cfg.aa and cap.get("aa_degenerate") and not cap.get("pp_failed"):
-            ctx.fail(f"C04:{cfg.method}._solve:pressure-non-finite:anderson=degenerate-lstsq:{cfg.solver}",
-                     f"the returned pressure has non-finite entries ({int(p.size - finite_p.size)} of {p.size}; {label})", rp)
         elif cap.get("degenerate_iterates") and cfg.solver in ("amg", "cg"):
             ctx.fail(f"C04:{cfg.method}._solve:pressure-non-finite:degenerate-mobility:{cfg.solver}",
                      f"the returned pressure has non-finite entries ({int(p.size - finite_p.size)} of {p.size}) after an iterative solve of a "
@@ -1008,7 +1018,7 @@ def aux_correspondence(ctx, d):
 def anderson_correspondence(ctx, d):
     """real `darsia.AndersonAcceleration` on dyadic vectors with the least-squares routine stubbed (prescribed dyadic weights)
     against `DarsiaModel.Anderson.call`: every returned iterate must equal the model exactly (history columns, column index,
-    restart, mixing formula); plus the property-level check that an affine constraint shared by all images is kept."""
+    restart, column filter of the least-squares problem, mixing formula); plus the property-level check that an affine constraint shared by all images is kept."""
     import scipy.linalg as sla
 
     lines, impl = [], []
@@ -1024,6 +1034,8 @@ def anderson_correspondence(ctx, d):
             g = np.array([rng.randint(-8, 8) / 2.0 for _ in range(dim)])
             g[-1] += 3.0 - g.sum()
             f = np.array([rng.randint(-8, 8) / 4.0 for _ in range(dim)])
+            if calls and rng.random() < 0.35:
+                f = calls[-1][1].copy()  # repeated increment: the new difference column of F vanishes and must be left out
             inner = k % restart if restart is not None else k
             mk = min(inner, depth)
             gamma = [rng.randint(-4, 4) / 2.0 for _ in range(mk)]
@@ -1036,8 +1048,9 @@ def anderson_correspondence(ctx, d):
             state = {"gamma": None}
 
             def stub(A, b, *a, **kw):
+                # returns as many of the prescribed weights as it is handed columns (the column filter decides how many)
                 seen_shapes.append(tuple(np.shape(A)))
-                return (np.array(state["gamma"], dtype=float), None, None, None)
+                return (np.array(state["gamma"][: np.shape(A)[1]], dtype=float), None, None, None)
 
             sla.lstsq = stub
             for k, (g, f, gamma) in enumerate(calls):
